@@ -20,6 +20,11 @@ pub enum Op {
     /// harness-level sequencing WITHOUT synchronisation: spin (Relaxed loads only, so no
     /// happens-before edge is created) until thread `t` has completed `n` operations
     WaitFor { t: usize, n: usize },
+    /// rendezvous of all threads; between the two halves of it the main thread drops the
+    /// current generation of shared expressions (compiled by it) and compiles the next one
+    Phase,
+    /// search expression `e` of the CURRENT generation (see `Phase`)
+    SearchGen { e: usize, d: usize },
 }
 
 #[derive(Clone, Debug)]
@@ -30,6 +35,11 @@ pub struct Scenario {
     /// use the default runtime on the main thread before spawning (no first-use race)
     pub touch_default_first: bool,
     pub threads: Vec<Vec<Op>>,
+    /// thread 0's operations run on the main thread -- the one that compiled the shared
+    /// expressions and will drop them -- at the same time as the spawned threads
+    pub main_runs: bool,
+    /// expression generations after the first (one per `Phase`), texts compiled by the main thread
+    pub gens: Vec<Vec<String>>,
 }
 
 fn op_json(o: &Op) -> Value {
@@ -40,6 +50,8 @@ fn op_json(o: &Op) -> Value {
         Op::CloneSearch { e, d } => json!({"k":"clone_search","e":e,"d":d}),
         Op::ToString { e, d } => json!({"k":"to_string","e":e,"d":d}),
         Op::WaitFor { t, n } => json!({"k":"wait_for","t":t,"n":n}),
+        Op::Phase => json!({"k":"phase"}),
+        Op::SearchGen { e, d } => json!({"k":"search_gen","e":e,"d":d}),
     }
 }
 
@@ -49,6 +61,8 @@ pub fn to_json(s: &Scenario) -> Value {
         "pre": s.pre.iter().map(|(c, t)| json!({"custom": c, "text": t})).collect::<Vec<_>>(),
         "touch_default_first": s.touch_default_first,
         "threads": s.threads.iter().map(|t| t.iter().map(op_json).collect::<Vec<_>>()).collect::<Vec<_>>(),
+        "main_runs": s.main_runs,
+        "gens": s.gens,
     })
 }
 
@@ -76,12 +90,23 @@ pub fn from_json(v: &Value) -> Scenario {
                                         "custom_search" => Op::CustomSearch { text: st(o, "text"), d: us(o, "d") },
                                         "clone_search" => Op::CloneSearch { e: us(o, "e"), d: us(o, "d") },
                                         "wait_for" => Op::WaitFor { t: us(o, "t"), n: us(o, "n") },
+                                        "phase" => Op::Phase,
+                                        "search_gen" => Op::SearchGen { e: us(o, "e"), d: us(o, "d") },
                                         _ => Op::ToString { e: us(o, "e"), d: us(o, "d") },
                                     })
                                     .collect()
                             })
                             .unwrap_or_default()
                     })
+                    .collect()
+            })
+            .unwrap_or_default(),
+        main_runs: v["main_runs"].as_bool().unwrap_or(false),
+        gens: v["gens"]
+            .as_array()
+            .map(|gs| {
+                gs.iter()
+                    .map(|g| g.as_array().map(|ts| ts.iter().filter_map(|t| t.as_str().map(|x| x.to_string())).collect()).unwrap_or_default())
                     .collect()
             })
             .unwrap_or_default(),
@@ -150,6 +175,107 @@ fn gen_text(r: &mut Rng, base: &J, custom: bool) -> String {
     }
 }
 
+/// Classes about WHICH thread does what (added after round 6 of the seeded changes):
+/// * "owner": the main thread compiled the shared expressions and searches them itself,
+///   at the same time as the spawned threads (anything biased towards, or keyed by, the
+///   compiling thread);
+/// * "rounds": long-lived threads search generation after generation of shared
+///   expressions; each generation is compiled and later dropped by the main thread, and
+///   the generations differ only in the operand of an expression reference (state that a
+///   thread keeps about an expression it did not create and will not see dropped);
+/// * "badpool": all threads compile the same few texts in lockstep, half of them with a
+///   syntax error near the END of a long text (whatever coalesces or caches compiles must
+///   also cope with the failing ones).
+fn generate_roles(r: &mut Rng, class: &str) -> Scenario {
+    let base = small_doc(r);
+    let mut docs = vec![base.to_json()];
+    for _ in 0..2 {
+        docs.push(base.mutated(r).to_json());
+    }
+    let mut threads = vec![];
+    if class == "owner" {
+        let pre: Vec<(bool, String)> = [
+            "sort_by(xs, &id)[*].id",
+            "map(&abs(@), a)",
+            "length(xs)",
+            "max_by(xs, &id).id",
+            "join('-', [s, s])",
+            "abs(a[0]) || to_string(xs[0])",
+        ]
+        .iter()
+        .map(|t| (true, t.to_string()))
+        .collect();
+        for t in 0..3 {
+            let mut ops = vec![];
+            for i in 0..(7 + r.below(3)) {
+                let e = (t + i) % pre.len();
+                let d = r.below(docs.len());
+                ops.push(match r.below(6) {
+                    0 => Op::CloneSearch { e, d },
+                    1 => Op::ToString { e, d },
+                    _ => Op::Search { e, d, form: (i % 3) as u8 },
+                });
+            }
+            threads.push(ops);
+        }
+        return Scenario { docs, pre, touch_default_first: true, threads, main_runs: true, gens: vec![] };
+    }
+    if class == "rounds" {
+        let n = *r.pick(&[5usize, 7]);
+        let mut recs = vec![];
+        for i in 0..n {
+            recs.push(J::Obj(vec![
+                ("a".into(), J::Int(((i * 2 + 1) % n) as i64)),
+                ("b".into(), J::Int(((i * 3 + 2) % n) as i64 * 2)),
+                ("c".into(), J::Int((n - i) as i64)),
+                ("id".into(), J::Int(i as i64)),
+            ]));
+        }
+        docs = vec![J::Obj(vec![("xs".into(), J::Arr(recs))]).to_json()];
+        let texts = |f: &str| -> Vec<String> {
+            vec![
+                format!("sort_by(xs, &{})[*].id", f),
+                format!("max_by(xs, &{}).id", f),
+                format!("map(&{}, xs)", f),
+                format!("min_by(xs, &{}).id", f),
+            ]
+        };
+        let pre: Vec<(bool, String)> = texts("a").into_iter().map(|t| (true, t)).collect();
+        let gens = vec![texts("b"), texts("c"), texts("a")];
+        for t in 0..3 {
+            let mut ops = vec![];
+            for g in 0..4 {
+                if g > 0 {
+                    ops.push(Op::Phase);
+                }
+                for i in 0..4 {
+                    ops.push(Op::SearchGen { e: (t + i) % 4, d: 0 });
+                }
+            }
+            threads.push(ops);
+        }
+        return Scenario { docs, pre, touch_default_first: true, threads, main_runs: true, gens };
+    }
+    // badpool
+    let long = (0..10).map(|i| format!("\"member-{:03}\"", i)).collect::<Vec<_>>().join(", ");
+    let texts = vec![
+        format!("length(`[{}]`) || s", long),
+        format!("length(`[{}]`) || s ||| a", long),
+        "xs[?id > `0`].id".to_string(),
+        format!("[`[{}]`, a, xs[?id >", long),
+    ];
+    for t in 0..3 {
+        let mut ops = vec![];
+        for i in 0..(6 + r.below(3)) {
+            let text = texts[i % 4].clone();
+            let d = r.below(docs.len());
+            ops.push(if (i / 4 + t / 4) % 2 == 0 { Op::CompileSearch { text, d } } else { Op::CustomSearch { text, d } });
+        }
+        threads.push(ops);
+    }
+    Scenario { docs, pre: vec![(true, "a".to_string())], touch_default_first: true, threads, main_runs: false, gens: vec![] }
+}
+
 /// `race`: build the scenario around the first use of the default runtime — it is
 /// untouched before the spawn and every thread starts by compiling through it.
 pub fn generate(seed: u64, class: &str) -> Scenario {
@@ -189,6 +315,10 @@ pub fn generate(seed: u64, class: &str) -> Scenario {
     // machine has 8 CPUs) must still come back in order.
     let bigproj = class == "bigproj";
     let mut r = Rng::new(seed);
+    if class == "owner" || class == "rounds" || class == "badpool" {
+        return generate_roles(&mut r, class);
+    }
+    let (main_runs, gens) = (false, vec![]);
     let mut base = small_doc(&mut r);
     if class != "general" && class != "shared" && class != "crowd" && r.chance(1, 2) {
         // top-level array documents: the records array itself
@@ -402,7 +532,7 @@ pub fn generate(seed: u64, class: &str) -> Scenario {
         }
         threads.push(ops);
     }
-    Scenario { docs, pre, touch_default_first, threads }
+    Scenario { docs, pre, touch_default_first, threads, main_runs, gens }
 }
 
 /// Kept in a static (not leaked) so that Miri's leak check stays meaningful.
@@ -432,12 +562,108 @@ fn deep_copy(v: &Rcvar) -> Rcvar {
     })
 }
 
+type Gen = Vec<Option<Expression<'static>>>;
+
 struct Shared {
     docs: Vec<Rcvar>,
     exprs: Vec<Option<Expression<'static>>>,
     custom: &'static Runtime,
     /// per-thread count of completed operations (threads mode only)
     progress: Option<Vec<AtomicUsize>>,
+    /// the current generation of shared expressions (scenarios with `Phase` / `SearchGen`):
+    /// every thread keeps its own `Arc` to it during a phase and lets go of it at the
+    /// rendezvous, so that the coordinator's `take()` there really drops the expressions
+    gen: std::sync::Mutex<Option<std::sync::Arc<Gen>>>,
+    /// texts of generation 0 (= `pre`), 1, 2, ...
+    gen_texts: Vec<Vec<String>>,
+    /// number of rendezvous every thread takes part in
+    nphases: usize,
+    barrier: std::sync::Barrier,
+}
+
+/// What one thread carries from operation to operation.
+#[derive(Default)]
+struct Tctx {
+    cur: Option<std::sync::Arc<Gen>>,
+    phase: usize,
+}
+
+fn compile_gen(sh: &Shared, texts: &[String]) -> Gen {
+    texts.iter().map(|t| sh.custom.compile(t).ok()).collect()
+}
+
+/// Coordinator only, all other threads parked (or not yet told to go on): drop the current
+/// generation -- this is the last reference -- and compile the next one, on this thread.
+fn next_generation(sh: &Shared, phase: usize) {
+    let old = sh.gen.lock().unwrap().take();
+    drop(old);
+    let next = std::sync::Arc::new(compile_gen(sh, &sh.gen_texts[(phase + 1).min(sh.gen_texts.len() - 1)]));
+    *sh.gen.lock().unwrap() = Some(next);
+}
+
+fn search_gen(sh: &Shared, ctx: &mut Tctx, e: usize, d: usize) -> String {
+    if ctx.cur.is_none() {
+        ctx.cur = sh.gen.lock().unwrap().clone();
+    }
+    match ctx.cur.as_ref() {
+        Some(g) if !g.is_empty() => match &g[e % g.len()] {
+            Some(ex) => render(ex.search(&sh.docs[d % sh.docs.len()])),
+            None => "skip".into(),
+        },
+        _ => "skip".into(),
+    }
+}
+
+/// One operation of a thread in `threads` mode (rendezvous through the barrier).
+fn run_op_ctx(sh: &Shared, ctx: &mut Tctx, coordinator: bool, op: &Op) -> String {
+    match op {
+        Op::SearchGen { e, d } => search_gen(sh, ctx, *e, *d),
+        Op::Phase => {
+            if ctx.phase >= sh.nphases {
+                return "skipped".into();
+            }
+            ctx.cur = None;
+            sh.barrier.wait();
+            if coordinator {
+                next_generation(sh, ctx.phase);
+            }
+            sh.barrier.wait();
+            ctx.phase += 1;
+            "phase".into()
+        }
+        _ => run_op(sh, op),
+    }
+}
+
+/// The operations of one thread, cut at the rendezvous points it takes part in.
+fn segments(ops: &[Op], nphases: usize) -> Vec<Vec<(usize, &Op)>> {
+    let mut segs = vec![vec![]];
+    for (i, op) in ops.iter().enumerate() {
+        if matches!(op, Op::Phase) && segs.len() <= nphases {
+            segs.push(vec![]);
+        }
+        segs.last_mut().unwrap().push((i, op));
+    }
+    while segs.len() <= nphases {
+        segs.push(vec![]);
+    }
+    segs
+}
+
+/// One segment of a thread where the driver does the rendezvous itself (`seq`, `serial`).
+fn run_segment(sh: &Shared, ctx: &mut Tctx, seg: &[(usize, &Op)]) -> Vec<(usize, String)> {
+    let out = seg
+        .iter()
+        .map(|(i, op)| {
+            (*i, match op {
+                Op::SearchGen { e, d } => search_gen(sh, ctx, *e, *d),
+                Op::Phase => (if ctx.phase < sh.nphases { ctx.phase += 1; "phase" } else { "skipped" }).to_string(),
+                _ => run_op(sh, op),
+            })
+        })
+        .collect();
+    ctx.cur = None;
+    out
 }
 
 fn render(r: Result<Rcvar, JmespathError>) -> String {
@@ -449,6 +675,7 @@ fn render(r: Result<Rcvar, JmespathError>) -> String {
 
 fn run_op(sh: &Shared, op: &Op) -> String {
     match op {
+        Op::Phase | Op::SearchGen { .. } => "skipped".into(),
         Op::WaitFor { t, n } => {
             if let Some(p) = sh.progress.as_ref() {
                 // a wait on an impossible target would never end: ignore it
@@ -522,7 +749,31 @@ fn build_shared(s: &Scenario) -> Shared {
             }
         })
         .collect();
-    Shared { docs, exprs, custom, progress: None }
+    let uses_gens = s.threads.iter().any(|t| t.iter().any(|o| matches!(o, Op::Phase | Op::SearchGen { .. })));
+    let mut gen_texts = vec![s.pre.iter().map(|(_, t)| t.clone()).collect::<Vec<_>>()];
+    gen_texts.extend(s.gens.iter().cloned());
+    let nphases = s
+        .threads
+        .iter()
+        .map(|t| t.iter().filter(|o| matches!(o, Op::Phase)).count())
+        .min()
+        .unwrap_or(0)
+        .min(s.gens.len());
+    let mut sh = Shared {
+        docs,
+        exprs,
+        custom,
+        progress: None,
+        gen: std::sync::Mutex::new(None),
+        gen_texts,
+        nphases,
+        barrier: std::sync::Barrier::new(s.threads.len().max(1)),
+    };
+    if uses_gens {
+        let g0 = compile_gen(&sh, &sh.gen_texts[0]);
+        sh.gen = std::sync::Mutex::new(Some(std::sync::Arc::new(g0)));
+    }
+    sh
 }
 
 fn arg<'a>(args: &'a [String], name: &str) -> Option<&'a str> {
@@ -550,6 +801,15 @@ pub fn main() {
             let a = exec(&sc, "seq", false).0;
             let b = exec(&sc, "serial", false).0;
             println!("B {} {:016x} {:016x}", i, a, b);
+            // role classes (which thread compiles, searches, drops): numbered from 1 000 000 / 2 000 000
+            for (base, cls, when) in [(1_000_000u64, "rounds", 3u64), (2_000_000u64, "owner", 5u64)] {
+                if i % 8 == when {
+                    let sc = generate(mix(seed, i), cls);
+                    let a = exec(&sc, "seq", false).0;
+                    let b = exec(&sc, "serial", false).0;
+                    println!("B {} {:016x} {:016x}", base + i, a, b);
+                }
+            }
         }
         return;
     }
@@ -572,7 +832,70 @@ fn exec(scen: &Scenario, mode: &str, verbose: bool) -> (u64, u64, usize) {
     let mut results: Vec<Vec<String>> = vec![vec![]; nthreads];
     let mut order_hash = 0u64;
     let mut contended = 0usize;
-    if mode == "seq" {
+    let roles = scen.main_runs || sh.nphases > 0 || scen.threads.iter().any(|t| t.iter().any(|o| matches!(o, Op::SearchGen { .. })));
+    if mode == "seq" && roles {
+        // one thread, phase by phase
+        let segs: Vec<_> = scen.threads.iter().map(|ops| segments(ops, sh.nphases)).collect();
+        let mut ctxs: Vec<Tctx> = (0..nthreads).map(|_| Tctx::default()).collect();
+        for ph in 0..=sh.nphases {
+            for t in 0..nthreads {
+                for (_, r) in run_segment(&sh, &mut ctxs[t], &segs[t][ph]) {
+                    results[t].push(r);
+                }
+            }
+            if ph < sh.nphases {
+                next_generation(&sh, ph);
+            }
+        }
+    } else if mode == "serial" && roles {
+        // every thread of the scenario is a real thread that lives for the whole scenario;
+        // the driver (the main thread, which is also thread 0 when `main_runs`) tells them
+        // one at a time to run their next segment, and changes generation in between:
+        // deterministic, no scheduler involved
+        use std::sync::mpsc;
+        let segs: Vec<_> = scen.threads.iter().map(|ops| segments(ops, sh.nphases)).collect();
+        let sh_ref = &sh;
+        let segs_ref = &segs;
+        let first_spawned = if scen.main_runs { 1 } else { 0 };
+        let collected: Vec<Vec<String>> = std::thread::scope(|sc| {
+            let mut chans = vec![];
+            for t in first_spawned..nthreads {
+                let (cmd_tx, cmd_rx) = mpsc::channel::<usize>();
+                let (res_tx, res_rx) = mpsc::channel::<Vec<(usize, String)>>();
+                sc.spawn(move || {
+                    let mut ctx = Tctx::default();
+                    while let Ok(ph) = cmd_rx.recv() {
+                        let out = run_segment(sh_ref, &mut ctx, &segs_ref[t][ph]);
+                        if res_tx.send(out).is_err() {
+                            break;
+                        }
+                    }
+                });
+                chans.push((t, cmd_tx, res_rx));
+            }
+            let mut res: Vec<Vec<String>> = vec![vec![]; nthreads];
+            let mut ctx0 = Tctx::default();
+            for ph in 0..=sh_ref.nphases {
+                if scen.main_runs && nthreads > 0 {
+                    for (_, r) in run_segment(sh_ref, &mut ctx0, &segs_ref[0][ph]) {
+                        res[0].push(r);
+                    }
+                }
+                for (t, cmd_tx, res_rx) in &chans {
+                    cmd_tx.send(ph).expect("worker gone");
+                    for (_, r) in res_rx.recv().expect("thread panicked") {
+                        res[*t].push(r);
+                    }
+                }
+                if ph < sh_ref.nphases {
+                    next_generation(sh_ref, ph);
+                }
+            }
+            drop(chans);
+            res
+        });
+        results = collected;
+    } else if mode == "seq" {
         for (t, ops) in scen.threads.iter().enumerate() {
             for op in ops {
                 results[t].push(run_op(&sh, op));
@@ -597,35 +920,43 @@ fn exec(scen: &Scenario, mode: &str, verbose: bool) -> (u64, u64, usize) {
         let sh_ref = &sh;
         let stamp_ref = &stamp;
         let started_ref = &started;
+        let worker = move |tid: usize, ops: &Vec<Op>| {
+            let mut out = vec![];
+            let mut stamps = vec![];
+            let mut ctx = Tctx::default();
+            let before = started_ref.fetch_add(1, Relaxed);
+            for op in ops {
+                // a wait may only look at a lower-numbered thread (no cycles)
+                if let Op::WaitFor { t, .. } = op {
+                    if *t >= tid {
+                        out.push("waited".into());
+                        continue;
+                    }
+                }
+                out.push(run_op_ctx(sh_ref, &mut ctx, tid == 0, op));
+                stamps.push(stamp_ref.fetch_add(1, Relaxed));
+                if let Some(p) = sh_ref.progress.as_ref() {
+                    p[tid].fetch_add(1, Relaxed);
+                }
+            }
+            (out, stamps, before)
+        };
+        let main_runs = scen.main_runs && nthreads > 0;
         let outs: Vec<(Vec<String>, Vec<usize>, usize)> = std::thread::scope(|sc| {
             let hs: Vec<_> = scen
                 .threads
                 .iter()
                 .enumerate()
-                .map(|(tid, ops)| {
-                    sc.spawn(move || {
-                        let mut out = vec![];
-                        let mut stamps = vec![];
-                        let before = started_ref.fetch_add(1, Relaxed);
-                        for op in ops {
-                            // a wait may only look at a lower-numbered thread (no cycles)
-                            if let Op::WaitFor { t, .. } = op {
-                                if *t >= tid {
-                                    out.push("waited".into());
-                                    continue;
-                                }
-                            }
-                            out.push(run_op(sh_ref, op));
-                            stamps.push(stamp_ref.fetch_add(1, Relaxed));
-                            if let Some(p) = sh_ref.progress.as_ref() {
-                                p[tid].fetch_add(1, Relaxed);
-                            }
-                        }
-                        (out, stamps, before)
-                    })
-                })
+                .skip(if main_runs { 1 } else { 0 })
+                .map(|(tid, ops)| sc.spawn(move || worker(tid, ops)))
                 .collect();
-            hs.into_iter().map(|h| h.join().expect("thread panicked")).collect()
+            // thread 0's operations on the main thread itself, next to the spawned ones
+            let mut all = vec![];
+            if main_runs {
+                all.push(worker(0, &scen.threads[0]));
+            }
+            all.extend(hs.into_iter().map(|h| h.join().expect("thread panicked")));
+            all
         });
         let mut h = Hasher64::new();
         let mut all: Vec<(usize, usize, usize)> = vec![];
